@@ -207,7 +207,7 @@ func acceptable(txs []*blockchain.Transaction, maxSize int) map[string]bool {
 			for k, v := range live {
 				nl[k] = v
 			}
-			bad := len(t.Params) > 0 && (t.Params[0] == 1 || t.Params[0] == 3 || t.Params[0] == 4 || t.Params[0] == 0xEE)
+			bad := len(t.Params) > 0 && (t.Params[0] == 1 || t.Params[0] == 3 || t.Params[0] == 6 || t.Params[0] == 0xEE)
 			if bad {
 				delete(nl, s)
 				rec(nl, picked, total)
@@ -231,7 +231,7 @@ func partA(r *vlib.Run) {
 	defer w.close()
 	slots := [][2]int{{0, 0}, {0, 1}, {1, 0}, {1, 1}}
 	fees := []uint64{40000, 90000, 200000}
-	scripts := []byte{0, 1, 4}
+	scripts := []byte{0, 1, 6}
 	pads := []int{0, 120}
 	if !r.Thorough() {
 		scripts = []byte{0, 1}
